@@ -107,6 +107,10 @@ def c_gops(pyops: List[Any], U) -> str:
             mdt = "None" if md is None else "(Some " + c_dist(md.name, None if md.version is None else str(md.version), list(md.reqs), bool(md.meta), U) + ")"
             out.append("(OpAdd {} {} {} {})".format(c_str(nm), mdt, c_opt(None if src is None else c_str(src)),
                                                    "None" if reason is None else "(Some " + c_req(reason) + ")"))
+        elif op[0] == "AF":
+            _, nm, md, src, reason = op
+            mdt = "None" if md is None else "(Some " + c_dist(md.name, None if md.version is None else str(md.version), list(md.reqs), bool(md.meta), U) + ")"
+            out.append("(OpAddFrom {} {} {} {})".format(c_str(nm), mdt, int(src), "None" if reason is None else "(Some " + c_req(reason) + ")"))
         elif op[0] == "I":
             out.append(f"(OpInvalidate {c_str(op[1])})")
         else:
